@@ -36,6 +36,3 @@ func (fx *Fx) execSelect(st *State, x *ast.SelectStmt) []Outcome {
 	panic(unsupported("select"))
 }
 func (fx *Fx) execSend(st *State, x *ast.SendStmt) []Outcome { panic(unsupported("send")) }
-func (fx *Fx) iteratorCall(st *State, inner, outer *ast.CallExpr) []callResult {
-	panic(unsupported("iterator application"))
-}
